@@ -6,7 +6,7 @@ generated program go through LOG, so that an observation is (outcome, LOG, post-
 import functools
 import sys
 
-__all__ = ['LOG', 't', 'CM', 'O', 'E1', 'E2', 'E3', 'tryin', 'fin', 'ext1', 'ext2', 'partial', 'nc', 'PROP']
+__all__ = ['deco', 'LOG', 't', 'CM', 'O', 'E1', 'E2', 'E3', 'tryin', 'fin', 'ext1', 'ext2', 'partial', 'nc', 'PROP']
 
 LOG = []
 PROP = ('PROPAGATING',)
@@ -36,6 +36,16 @@ def ext2(x, y=3, *, k=0):
 
 
 partial = functools.partial
+
+
+def deco(k):
+  """Decorator factory with a visible effect; the decorated function is returned unchanged."""
+  LOG.append(('deco', repr(k)))
+
+  def apply(fn):
+    LOG.append(('decorated', fn.__name__))
+    return fn
+  return apply
 
 
 def tryin(k):
